@@ -41,4 +41,21 @@ def count (sizes delays : List Nat) (e : Nat) (maxScales : Option Nat) : Nat :=
     | none => need
   (max n 1).toNat
 
+/-! ### the per-axis delays -/
+
+/-- least `k ≥ k0` (within the fuel) with `(n/d)² < 2^(2k+1)` -/
+def delayFuel : Nat → Nat → Nat → Nat → Nat
+  | 0, k, _, _ => k
+  | f + 1, k, n, d => if n * n < 2 ^ (2 * k + 1) * (d * d) then k else delayFuel f (k + 1) n d
+
+/-- `int(round(math.log2(q)))` for the resolution ratio `q = n / d ≥ 1` of an axis to the finest axis
+    (`n / d` is the exact value of the float quotient the code computes): the integer nearest to `log2 q`,
+    i.e. the `k` with `2^(k-½) ≤ q < 2^(k+½)`, decided on squares in integer arithmetic. (`log2 q` is never
+    a half-integer for rational `q`; that libm's `log2` and `round` land on the nearest integer is the
+    assumption the correspondence run checks.) -/
+def delay (n d : Nat) : Nat := delayFuel n 0 n d
+
+/-- delays of the three axes from the ratios to the finest axis -/
+def delays (ratios : List (Nat × Nat)) : List Nat := ratios.map fun q => delay q.1 q.2
+
 end NgVerif.Scales
